@@ -122,3 +122,30 @@ Fixpoint interval_of (name : pystr) (tbl : list (list pystr * Z)) : option Z :=
   | [] => None
   | (names, v) :: r => if mem_str name names then Some v else interval_of name r
   end.
+
+(* ---- RateLimiter.cleanup (called whenever a client disconnects) ----
+   horizon = the longest interval of any rule outside the "global" scope; a per-address deque whose
+   newest entry is older than that (or which is empty) is cleared.  Nothing happens without ip rules. *)
+Definition scope_horizon (cr : cmdrules) : Z := fold_right Z.max 0 (map (fun p => max_interval (snd p)) cr).
+Definition horizon (cfg : config) : Z :=
+  fold_right Z.max 0 (map (fun p => if str_eqb (fst p) g_global then 0 else scope_horizon (snd p)) cfg).
+Definition cleanup_deque (h now : Z) (d : list Z) : list Z :=
+  match d with [] => [] | a :: _ => if now - a >? h then [] else d end.
+Definition cleanup (cfg : config) (now : Z) (s : lstate) : lstate :=
+  match lookup_str g_ip cfg with
+  | Some (_ :: _) =>
+      map (fun e => if str_eqb (fst (fst e)) g_global then e else (fst e, cleanup_deque (horizon cfg) now (snd e))) s
+  | _ => s
+  end.
+
+(* arrivals and cleanups mixed *)
+Inductive lop := LArr (a : arrival) | LCleanup (t : Z).
+Fixpoint run_ops (dstep : list rule -> list Z -> Z -> bool * list Z) (clean : bool) (cfg : config) (s : lstate)
+         (ops : list lop) : list bool * lstate :=
+  match ops with
+  | [] => ([], s)
+  | LArr (t, a, c) :: r =>
+      let '(lim, s') := is_limited_gen dstep cfg s a c t in
+      let '(ds, sf) := run_ops dstep clean cfg s' r in (lim :: ds, sf)
+  | LCleanup t :: r => run_ops dstep clean cfg (if clean then cleanup cfg t s else s) r
+  end.
